@@ -6,6 +6,9 @@ props = [json.loads(l) for l in open(os.path.join(V, "properties.jsonl"))]
 
 CLAIMED = {
  # id: (design_ref, technique, level text, level note)
+ "C17": ("§7 C17", "Lean 4 theorems over the encoding model (LE/BE, packed BCD incl. overflow characterisation, tags, hex, CP437 table by kernel decide, receipt numbers) + exhaustive/boundary differential correspondence",
+         "Proved in Lean for all values and widths: integer round trips, BCD decode∘encode = id, digits 0-9 only, MSD first, the decoder returns the unbounded digit value iff it fits the width and IncompleteData otherwise (no wrapped value), F padding, leading zeros, tag round trip and shape, hex both directions, CP437 byte round trip (256-entry table by decide +kernel), receipt number with FFFF sentinel. Model tied to encoding.rs exhaustively for u8/u16/tags/CP437 and at all boundaries for wider types.",
+         "Trusted: Lean kernel (+ propext, Quot.sound, Classical.choice), hand model of encoding.rs validated against the Rust code on each run, python reference oracles."),
  "C16": ("§7 C16", "Lean 4 theorems over the length-prefix model (round trip with arbitrary trailer, shortest form, truncation, injectivity, parser totality) + exhaustive differential correspondence model/Rust",
          "Proved in Lean for every length of every style (no bound): ser/de round trip with arbitrary trailing data, shortest form with the 128/256 and 255 switch points, truncated prefix => IncompleteData, injectivity, no parser panic. The model is tied to length.rs by running both on every representable length and every 0..2-byte (thorough: 3-byte) string.",
          "Trusted: Lean kernel (+ propext, Quot.sound, Classical.choice), the hand model of length.rs validated exhaustively against the Rust code on each run, harness/driver/line protocol."),
